@@ -137,6 +137,9 @@ def aged_case(prop):
                 "mask": ["all"] if draw(st.booleans()) else draw(gen.mask_spec(nd)),
                 # the writes go to the object itself, or to an object derived from it (then the object must not change)
                 "derive": derive_how,
+                "origin": None if derive_how is not None or (mix // 7919) % 10 >= 3 else
+                ["fftn", "fft-roundtrip", "rot-odd", "rot-copy", "range", "box", "pad2", "resample2", "mul", "h5", "xarray",
+                 "plane"][(mix // 104729) % 12],
                 "unit": draw(st.sampled_from(gen.FIELD_UNITS)), "bc0": draw(st.integers(0, 7)),
                 "script": script, "obs_seed": draw(st.integers(0, 2**31)),
                 "final_warm": draw(st.booleans())}
@@ -216,7 +219,7 @@ def apply_step(f, step, case):
         f.norm = step[2]
     elif kind in ("translate", "region-translate"):
         cell = np.asarray(f.mesh.cell, dtype=float)
-        vec = tuple(float(v * c) for v, c in zip(step[2], cell))
+        vec = tuple(float(v * c) for v, c in zip((list(step[2]) * 4)[:nd], cell))
         if kind == "translate":
             f.mesh.translate(vec, inplace=True)
         else:
@@ -224,7 +227,7 @@ def apply_step(f, step, case):
                 return None  # a region-level move cannot take the mesh's subregions along
             f.mesh.region.translate(vec, inplace=True)
     elif kind in ("scale", "region-scale"):
-        fac = step[2] if not isinstance(step[2], list) else tuple(step[2])
+        fac = step[2] if not isinstance(step[2], list) else tuple((list(step[2]) * 4)[:nd])
         edges = np.asarray(f.mesh.region.edges, dtype=float) * np.asarray(fac, dtype=float)
         ref = max(abs(float(x)) for x in list(f.mesh.region.pmin) + list(f.mesh.region.pmax))
         u = 10.0 ** case["g"]["exp"]
@@ -261,7 +264,7 @@ def apply_step(f, step, case):
     elif kind == "units":
         if len(f.mesh.subregions) > 0 or CFG[case["prop"]].get("no_units"):
             return None  # region-level attribute writes do not reach the mesh's subregions (DESIGN section 6)
-        f.mesh.region.units = list(step[2])
+        f.mesh.region.units = (list(step[2]) * 4)[:nd]
     elif kind == "dims":
         # renaming the axes through the region (scalar fields on meshes without subregions: nothing else refers
         # to the axis names)
@@ -320,6 +323,8 @@ def primary_state(f):
         "subs": [(name, np.array(s.pmin), np.array(s.pmax)) for name, s in m.subregions.items()],
         "array": np.array(f.array), "valid": np.array(f.valid), "nvdim": f.nvdim,
         "vdims": None if f.vdims is None else list(f.vdims), "mapping": dict(f.vdim_mapping), "unit": f.unit,
+        # the storage type the user asked for (public attribute; None = inferred from every new value)
+        "dtype": None if f.dtype is None else np.dtype(f.dtype).str,
     }
 
 
@@ -329,7 +334,8 @@ def build_fresh(s):
     region = df.Region(p1=s["pmin"], p2=s["pmax"], dims=s["dims"], units=s["units"], tolerance_factor=s["tol"])
     subs = {name: df.Region(p1=a, p2=b) for name, a, b in s["subs"]}
     mesh = df.Mesh(region=region, n=s["n"], bc=s["bc"], subregions=subs)
-    return df.Field(mesh, nvdim=s["nvdim"], value=s["array"].copy(), vdims=s["vdims"], dtype=s["array"].dtype,
+    return df.Field(mesh, nvdim=s["nvdim"], value=s["array"].copy(), vdims=s["vdims"],
+                    dtype=None if s["dtype"] is None else np.dtype(s["dtype"]),
                     unit=s["unit"], valid=s["valid"].copy(), vdim_mapping=dict(s["mapping"]))
 
 
@@ -338,7 +344,7 @@ def same_state(a, b):
         x, y = np.asarray(a[key]), np.asarray(b[key])
         if x.shape != y.shape or not np.array_equal(x, y, equal_nan=(x.dtype.kind in "fc")):
             return key
-    for key in ("n", "dims", "units", "tol", "bc", "nvdim", "vdims", "mapping", "unit"):
+    for key in ("n", "dims", "units", "tol", "bc", "nvdim", "vdims", "mapping", "unit", "dtype"):
         if a[key] != b[key]:
             return key
     if [(n_, tuple(p), tuple(q)) for n_, p, q in a["subs"]] != [(n_, tuple(p), tuple(q)) for n_, p, q in b["subs"]]:
@@ -813,6 +819,18 @@ OBS = {
 # --------------------------------------------------------------------------- the check
 
 
+# observables that must succeed on every object of the generated domain, whatever its history or origin (an
+# exception raised by both the aged and the fresh object is otherwise only recorded)
+MUST_SUCCEED = {
+    "C01": None, "C06": None, "C13": None,  # None = all of the property's observables
+    "C02": ["sample", "iter", "components"], "C03": ["neg", "abs", "add", "mul", "rmul", "sub", "div", "sq", "conj", "real", "imag"],
+    "C04": ["d1", "d2", "d1u"], "C07": ["range", "region", "slices", "pad", "pad-wrap", "resample", "plane", "plane-value"],
+    "C08": ["own", "neg", "norm", "diff", "add", "real", "pad", "resample", "h5"], "C10": ["h5"],
+    "C11": ["fftn", "kmesh", "back"], "C15": ["norm"], "C17": ["export", "back"],
+    "C16": ["grid", "bin", "xml", "txt"], "C09": ["bin8", "bin4", "txt"],
+}
+
+
 def observe(fn, f, P):
     """-> {name: canonical result | _Raised}; every item evaluated on its own"""
     try:
@@ -878,6 +896,27 @@ def derive(f, how, case):
         return (getattr(f, f.vdims[0]) << getattr(f, f.vdims[-1])) if f.vdims else None
     if how == "h5":
         return _tmp_roundtrip(f, "h5")[0]
+    if how == "fftn":
+        return f.fftn()
+    if how == "fft-roundtrip":
+        return f.fftn().ifftn()
+    if how == "rot-odd":
+        if len(dims) < 2 or (f.nvdim > 1 and not all(x in dict(f.vdim_mapping).values() for x in dims[:2])):
+            return None
+        return f.rotate90(dims[0], dims[1], k=1)
+    if how == "range":
+        m = f.mesh
+        lo = float(m.region.pmin[0]) + 0.25 * float(m.cell[0])
+        hi = float(m.region.pmax[0]) - 0.25 * float(m.cell[0])
+        return f.sel(**{dims[0]: (lo, hi)}) if hi > lo else None
+    if how == "pad2":
+        return f.pad({d: (1, 2)}, mode="edge")
+    if how == "resample2":
+        return f.resample(tuple(max(1, int(i) // 2 + 1) for i in f.mesh.n))
+    if how == "xarray":
+        import discretisedfield as df
+
+        return df.Field.from_xarray(f.to_xarray())
     raise AssertionError(how)
 
 
@@ -938,6 +977,16 @@ def check_aged(case):
     prop = case["prop"]
     obs = OBS[prop]
     aged = build_initial(case)
+    if case.get("origin"):
+        # the object under test is itself the result of a library operation (a transform, a rotated / padded /
+        # resampled / sliced copy, a reload): it behaves like a fresh object with the same public state
+        aged = derive(aged, case["origin"], case)
+        if aged is None:
+            raise Reject()
+        if CFG[prop].get("ndim") in (2, 3) and aged.mesh.region.ndim != CFG[prop]["ndim"]:
+            raise Reject()
+        tag("origin:" + case["origin"])
+        case = dict(case, dtype={"f": "float", "c": "complex", "i": "int"}.get(aged.array.dtype.kind, "float"))
     applied = 0
     for step in case["script"]:
         if step[1]:  # warm: read every observable of the property on the present state (results discarded)
@@ -946,7 +995,7 @@ def check_aged(case):
         if t is not None:
             applied += 1
             tag("step:" + t)
-    if applied == 0:
+    if applied == 0 and not case.get("origin"):
         raise Reject()
     if case["final_warm"]:
         _warm(obs, aged, case["obs_seed"])
@@ -966,8 +1015,15 @@ def check_aged(case):
         b = observe(fn, fresh, P)
         if list(a) != list(b):
             raise Violation("aged-differs:observable-set", f"{list(a)} vs {list(b)}")
+        must = MUST_SUCCEED.get(prop, [])
+        real_only = prop in ("C09", "C16") and aged.array.dtype.kind == "c"  # OVF and VTK do not carry complex values
         for name in a:
             add_evaluations(1)
+            if isinstance(b[name], _Raised) and (must is None or name in must) and not real_only \
+                    and fn is obs[0] and name != "<setup>":
+                raise Violation(f"observable-raises:{name}:{b[name].type}",
+                                f"'{name}' raises {b[name].type}({b[name].text}) on an object with history {hist} / origin "
+                                f"{case.get('origin')} and on the same state built afresh")
             d = differ(a[name], b[name], name)
             if d:
                 raise Violation(f"aged-differs:{d.split(':')[0][:70]}",
